@@ -14,6 +14,12 @@ import ast
 from .core import norm
 
 
+def _PKG_MISSING():
+    from .pkgenv import _MISSING
+
+    return _MISSING
+
+
 class Unsupported(Exception):
     pass
 
@@ -306,6 +312,8 @@ class MiniEval:
             return getattr(obj, n.attr)  # class-level API of a model class (alternative constructors such as Lark.open)
         if obj is None:
             raise ModelRaise("AttributeError", f"'NoneType' object has no attribute '{n.attr}'")
+        if (type(obj).__module__ == "inspect" or getattr(obj, "__module__", None) == "inspect" and isinstance(obj, type)) and not n.attr.startswith("_") and hasattr(obj, n.attr):
+            return getattr(obj, n.attr)  # inspect.Parameter objects and their kind / empty markers: plain immutable values
         if isinstance(obj, (dict, list, tuple, str, set, frozenset)) and n.attr in ("__getitem__", "__contains__", "__len__", "__eq__", "__ne__", "__iter__", "__le__", "__lt__", "__ge__", "__gt__", "__or__", "__and__", "__sub__", "__xor__", "__setitem__", "__delitem__", "__reversed__") and hasattr(obj, n.attr):
             return getattr(obj, n.attr)
         if obj in (dict, set, frozenset, str, list, tuple, int) and n.attr in ("fromkeys", "union", "intersection", "join", "maketrans", "from_bytes", "difference") and hasattr(obj, n.attr):
@@ -1281,6 +1289,12 @@ class BlockInterp:
                         v = NS(**tab[al.name])
                     elif isinstance(st, ast.ImportFrom) and st.module in ("typing", "__future__", "abc", "numbers"):
                         v = object
+                    elif isinstance(st, ast.ImportFrom) and "__resolve_import__" in self.me.env and (st.level or (st.module or "").split(".")[0] == "circuitgraph") \
+                            and self.me.env["__resolve_import__"](st.module, al.name, st.level) is not _PKG_MISSING():
+                        v = self.me.env["__resolve_import__"](st.module, al.name, st.level)
+                    elif isinstance(st, ast.Import) and al.name.split(".")[0] == "circuitgraph" and "__resolve_module__" in self.me.env \
+                            and self.me.env["__resolve_module__"](al.name if al.asname else "circuitgraph") is not _PKG_MISSING():
+                        v = self.me.env["__resolve_module__"](al.name if al.asname else "circuitgraph")
                     elif isinstance(st, ast.ImportFrom) and (st.module or "").startswith("circuitgraph") and nm in self.me.env:
                         v = self.me.env[nm]
                     elif isinstance(st, ast.ImportFrom) and (st.module or "").split(".")[0] == "networkx" and al.name in _EXC_PARENTS:
